@@ -10,7 +10,8 @@
 //	stackreq <maj> <min> <name> <boundary> <scheme> <host> <url> <remote> <hdr>
 //	                                                       httpspec.NewStack(name).ModifyRequest
 //	stackres <status> <hdr>                                ….ModifyResponse on the request/context of the last stackreq
-//	e2e …                                                  oracle-only: a real proxy using the stack (see e2e.go)
+//	e2e <name> <boundary> <raw header lines> <status> <hdr>  a real proxy using the stack (see e2e.go); the model is sent
+//	    e2e <name> <boundary> <scheme> <host> <url> <remote> <status> <request header as parsed> <hdr>
 //	hdr.canon|get|values|set|add|del, net.shp, re.field2   stdlib-model differential ops
 package c14
 
@@ -160,13 +161,15 @@ func arg(t []string, i int) string {
 	return string(b)
 }
 
-// errClass maps a modifier error to the model's enum.
+// errClass maps a modifier error to the model's enum: one class per aggregated error
+// (martian.MultiError joins its members with a newline; inside a Warning value the newline
+// is the two characters `\n`), joined by "+".
 func errClass(err error) string {
 	if err == nil {
 		return "ok"
 	}
 	var cs []string
-	for _, l := range strings.Split(err.Error(), "\n") {
+	for _, l := range strings.Split(strings.ReplaceAll(err.Error(), `\n`, "\n"), "\n") {
 		switch {
 		case strings.Contains(l, "detected request loop"):
 			cs = append(cs, "loop")
@@ -409,6 +412,8 @@ func (e *ex) Do(op string) core.Result {
 			if res.StatusCode != 400 {
 				fs = append(fs, &fl{e.loopSig, fmt.Sprintf("the request's Via named this instance but the response status is %d, not 400", res.StatusCode)})
 			}
+			// the 400 still travels to the client through the stack: no hop-by-hop header on it either
+			fs = append(fs, oracleHop(before, res.Header, nil)...)
 		} else {
 			if res.StatusCode != status {
 				fs = append(fs, &fl{"c14:status-changed", fmt.Sprintf("response status %d became %d without a loop", status, res.StatusCode)})
